@@ -176,3 +176,19 @@ CHECKS["C09"] = {
         {"pkg": "revocation", "run": "TestVF_C09_Random", "rapid": {"quick": 800, "thorough": 6000}, "shards": {"quick": 4, "thorough": 16}},
     ],
 }
+
+CHECKS["C10"] = {
+    "level": "fault_enumeration",
+    "exhaustive_claim": True,
+    "technique": "differential testing against an independently written chain/signature verifier: complete enumeration of single corruptions (every field, every byte of parent hashes and of the signed accumulator, event deletion/duplication/insertion/swaps, accumulator substitutions) over chains and windows, three transports (memory, JSON, CBOR), plus rapid-sampled double corruptions; Hash.Equal and Update.Prepend checked as functions; native fuzzing of the decoders in the thorough tier",
+    "level_text": "For every corrupted update the library (Update.Verify, Witness.Update, Update.Prepend) must succeed exactly when the reference verifier says the received data are an authentically signed accumulator for the receiver's key and a gap-free, correctly indexed hash chain ending in the signed event hash; on rejection the witness / update must equal its snapshot. Corruptions that leave an authentic message (re-signed accumulator, issuer-signed alternative chain, dropped leading events) are decided by the reference, not assumed invalid.",
+    "level_note": "The reference uses fxamacker/cbor (third party) to open the signed tuple, crypto/ecdsa + encoding/asn1 for the signature, crypto/sha256 for event hashes; it shares no code with package revocation or signed.",
+    "rule": ("case = one (chain length, window, corruption(s), transport) presented to the entry points. Non-trivial: corrupted updates that survive transport (decode) and reach a hash or signature comparison; distinct by (n, window, transport, corruption names)."),
+    "assumptions": ["fxamacker/cbor decoding", "crypto/ecdsa, crypto/sha256, encoding/asn1"],
+    "units": [
+        {"pkg": "revocation", "run": "TestVF_C10_Single", "shards": {"quick": 8, "thorough": 16}, "timeout": {"quick": 500, "thorough": 3400}},
+        {"pkg": "revocation", "run": "TestVF_C10_Double", "rapid": {"quick": 400, "thorough": 3000}, "shards": {"quick": 2, "thorough": 16}},
+        {"pkg": "revocation", "run": "TestVF_C10_HashEqual", "rapid": {"quick": 300, "thorough": 3000}},
+        {"pkg": "revocation", "run": "TestVF_C10_Prepend", "shards": {"quick": 4, "thorough": 16}},
+    ],
+}
